@@ -189,6 +189,9 @@ func c14r1(c *Ctx) {
 			tbl, order, why := marshalTable(fd)
 			construct := msg + ": marshaller tag bytes"
 			switch {
+			case strings.Contains(why, "touches {"):
+				c.FailX(Oblig{Rule: rule, Func: msg, Construct: construct, Pos: c.P.Pos(fd.Pos()), Kind: "violation", Detail: why,
+					Expected: "each case reads and writes only the field of its own tag"})
 			case why != "":
 				c.Fail(rule, "undecided", msg, construct, c.P.Pos(fd.Pos()), why)
 			case tableKey(tbl) != tableKey(tg):
@@ -207,6 +210,9 @@ func c14r1(c *Ctx) {
 			tbl, why := unmarshalTable(fd)
 			construct := msg + ": unmarshaller cases"
 			switch {
+			case strings.Contains(why, "touches {"):
+				c.FailX(Oblig{Rule: rule, Func: msg, Construct: construct, Pos: c.P.Pos(fd.Pos()), Kind: "violation", Detail: why,
+					Expected: "each case reads and writes only the field of its own tag"})
 			case why != "":
 				c.Fail(rule, "undecided", msg, construct, c.P.Pos(fd.Pos()), why)
 			case tableKey(tbl) != tableKey(tg):
@@ -547,7 +553,11 @@ func c14r2(c *Ctx) {
 				}
 				v := retval(r, 0)
 				lv := append(append([]level{}, above...), level{env, r})
-				if call, ok := v.(*ssa.Call); ok && depth < 3 {
+				call, _ := v.(*ssa.Call)
+				if ex, ok := v.(*ssa.Extract); ok && ex.Index == 0 {
+					call, _ = ex.Tuple.(*ssa.Call) // `return helper(buf)` handing on (length, error)
+				}
+				if call != nil && depth < 3 {
 					if sc := call.Call.StaticCallee(); sc != nil && len(sc.Blocks) > 0 && sc.Pkg != nil && strings.HasPrefix(sc.Pkg.Pkg.Path(), modPath) && sc != env.Fn {
 						flatten(env.Sub(call, sc), lv, depth+1)
 						continue
@@ -606,6 +616,107 @@ func c14r2(c *Ctx) {
 	// writer: sign byte and magnitude
 	me := c.P.Env(mar)
 	a, buf := "P:"+paramName(mar.Params[1]), "P:"+paramName(mar.Params[2])
+	// the writer touches only the bytes it reports: the generated marshaller fills its buffer back to front and hands the
+	// writer dAtA[i:], so everything behind the reported length is a field that is already encoded
+	isBufWrite := func(in ssa.Instruction) (string, bool) {
+		switch x := in.(type) {
+		case *ssa.Store:
+			if ia, ok := x.Addr.(*ssa.IndexAddr); ok && isByteSliceT(ia.X.Type()) {
+				return "store", true
+			}
+		case *ssa.Call:
+			if bi, ok := x.Call.Value.(*ssa.Builtin); ok && bi.Name() == "copy" {
+				return "copy", true
+			}
+		}
+		return "", false
+	}
+	nw := 0
+	for _, s := range c.P.EffectSitesBelow(me, "c14bufwrite", isBufWrite) {
+		var dst ssa.Value
+		var idx, count LE
+		switch x := s.In.(type) {
+		case *ssa.Store:
+			ia := x.Addr.(*ssa.IndexAddr)
+			dst, idx, count = ia.X, s.Env.LE(ia.Index), leConst(1)
+		case *ssa.Call:
+			dst, idx, count = x.Call.Args[0], leConst(0), leAtom("len("+s.Env.Term(x.Call.Args[1])+")")
+		}
+		term, off := s.Env.Term(dst), leConst(0)
+		if be, base, o, ok := s.Env.sliceBase(dst, 0); ok {
+			term, off = be.Term(base), o
+		}
+		if term != buf {
+			continue
+		}
+		nw++
+		end := off.plus(idx).plus(count)
+		// judged in the function that contains the write when it reports a length itself, else in the writer
+		env, at := s.Env, s.In
+		for env.Parent != nil && env.Fn != mar {
+			if res := env.Fn.Signature.Results(); res.Len() == 2 && isInteger(res.At(0).Type()) && isErrorType(res.At(1).Type()) {
+				break
+			}
+			at, env = env.Call.(ssa.Instruction), env.Parent
+		}
+		construct := "writer: write of buf[" + off.plus(idx).String() + " : " + end.String() + ") stays inside the reported length"
+		bad := ""
+		for _, r := range returnsOf(env.Fn) {
+			if !isSuccessReturn(r) || !(at.Block() == r.Block() || instrReaches(env.Fn, at, r, nil)) {
+				continue
+			}
+			rv := retval(r, 0)
+			if ex, ok := rv.(*ssa.Extract); ok {
+				if _, isCall := ex.Tuple.(*ssa.Call); isCall {
+					continue // the length is the one a helper reports: judged there
+				}
+			}
+			n := env.LE(rv)
+			// facts at the return; or — for a position that is a loop counter — what bounds it at the write itself, when the
+			// reported length is made of values that do not change (constants, lengths)
+			stable := true
+			for a := range n.c {
+				if !strings.HasPrefix(a, "len(") {
+					stable = false
+				}
+			}
+			if Proves(env.LinFactsAt(r, nil), n.minus(end)) || (stable && env == s.Env && Proves(env.LinFactsAt(s.In, nil), n.minus(end))) {
+				continue
+			}
+			// the length computed by a helper in return position (`return encodedSize(len(b)), nil`): each of its returns, under
+			// what holds there and here
+			if hc, ok := rv.(*ssa.Call); ok {
+				if sc := hc.Call.StaticCallee(); sc != nil && len(sc.Blocks) > 0 && sc.Pkg != nil && strings.HasPrefix(sc.Pkg.Pkg.Path(), modPath) && env.depth < maxDepth {
+					sub := env.Sub(hc, sc)
+					all := true
+					for _, r2 := range returnsOf(sc) {
+						if len(r2.Results) != 1 {
+							all = false
+							break
+						}
+						facts := append(append([]Fact{}, env.LinFactsAt(r, nil)...), sub.LinFactsAt(r2, nil)...)
+						if !Proves(facts, sub.LE(r2.Results[0]).minus(end)) {
+							all = false
+						}
+					}
+					if all {
+						continue
+					}
+				}
+			}
+			bad = "on the path returning " + n.String() + " at " + c.P.InstrPos(r)
+		}
+		if bad == "" {
+			c.OK(rule, FuncName(s.In.Parent()), construct, c.P.InstrPos(s.In), "every reachable return reports at least that many bytes")
+		} else {
+			c.FailX(Oblig{Rule: rule, Func: FuncName(s.In.Parent()), Construct: construct, Pos: c.P.InstrPos(s.In), Kind: "violation",
+				Detail:   "the amount writer writes beyond the length it reports (" + bad + "): the bytes behind it hold the fields the marshaller has already encoded, they are overwritten and the message no longer decodes to what was encoded",
+				Expected: "writes confined to buf[0 : returned length)"})
+		}
+	}
+	if nw == 0 {
+		c.Anchor(rule, "writes of the amount writer into its buffer")
+	}
 	neg := leAtom("Sign(" + a + ")").scale(-1).addK(-1).String() // Sign(a) < 0
 	nonneg := leAtom("Sign(" + a + ")").String()                 // Sign(a) >= 0
 	nsign := 0
@@ -618,8 +729,7 @@ func c14r2(c *Ctx) {
 					continue
 				}
 				if k, ok := constInt(ia.Index); !ok || k != 0 {
-					c.Fail(rule, "violation", FuncName(mar), "sign byte position", c.P.InstrPos(x), "a byte other than buf[0] is written directly")
-					continue
+					continue // not the sign byte (its position is judged by the bounds obligation below)
 				}
 				nsign++
 				// the cases of the written byte: a constant under the facts at the store, or — `buf[0] = signByteOf(a)` — each
@@ -735,6 +845,21 @@ func c14r2(c *Ctx) {
 		if isNilConst(rv) {
 			continue
 		}
+		// every decoded amount is its own object: the callers add to / subtract from what the decoder hands them
+		fresh, what := freshBigInt(ue, rv, 0)
+		fconstruct := fmt.Sprintf("reader: value returned @b%d is a fresh big.Int", r.Block().Index)
+		switch fresh {
+		case 1:
+			c.OK(rule, FuncName(unm), fconstruct, c.P.InstrPos(r), what)
+		case 0:
+			c.FailX(Oblig{Rule: rule, Func: FuncName(unm), Construct: fconstruct, Pos: c.P.InstrPos(r), Kind: "violation",
+				Detail:   "the decoder hands out " + what + ": every amount decoded this way is one shared object, so an in-place Add / Sub on one decoded balance changes all of them (decode(encode(x)) no longer yields a value equal to x once any of them is updated)",
+				Expected: "a newly allocated big.Int per decoded value"})
+			continue
+		default:
+			c.Fail(rule, "undecided", FuncName(unm), fconstruct, c.P.InstrPos(r), "cannot tell where the returned object comes from: "+what)
+			continue
+		}
 		if call, ok := rv.(*ssa.Call); ok && CalleeName(call) == "math/big.NewInt" {
 			continue // the explicit zero case
 		}
@@ -745,6 +870,78 @@ func c14r2(c *Ctx) {
 			c.Fail(rule, "violation", FuncName(unm), construct, c.P.InstrPos(r), "a sign byte other than 0/1 is accepted: the encoding is not canonical")
 		}
 	}
+}
+
+// freshBigInt: 1 when the *big.Int is allocated by the function that returns it (NewInt, new(big.Int), or a big.Int method
+// applied to such an object, which returns its receiver), 0 when it is package-level state, -1 otherwise.
+func freshBigInt(e *Env, v ssa.Value, depth int) (int, string) {
+	if depth > 8 {
+		return -1, "too deep"
+	}
+	switch x := v.(type) {
+	case *ssa.Alloc:
+		return 1, "new(big.Int)"
+	case *ssa.Call:
+		if CalleeName(x) == "math/big.NewInt" {
+			return 1, "big.NewInt"
+		}
+		if bigMethod(x) != "" && len(x.Call.Args) > 0 {
+			return freshBigInt(e, x.Call.Args[0], depth+1)
+		}
+		if sc := x.Call.StaticCallee(); sc != nil && len(sc.Blocks) > 0 && sc.Pkg != nil && strings.HasPrefix(sc.Pkg.Pkg.Path(), modPath) && e.depth < maxDepth {
+			sub := e.Sub(x, sc)
+			res, what := 1, ""
+			for _, r := range returnsOf(sc) {
+				if len(r.Results) == 0 || isNilConst(r.Results[0]) {
+					continue
+				}
+				rr, w := freshBigInt(sub, retval(r, 0), depth+1)
+				if rr < res {
+					res = rr
+				}
+				if rr != 1 || what == "" {
+					what = w
+				}
+			}
+			return res, what
+		}
+	case *ssa.Extract:
+		if call, ok := x.Tuple.(*ssa.Call); ok && x.Index == 0 {
+			return freshBigInt(e, call, depth+1)
+		}
+	case *ssa.Phi:
+		res, what := 1, ""
+		for _, ed := range x.Edges {
+			if isNilConst(ed) {
+				continue
+			}
+			rr, w := freshBigInt(e, ed, depth+1)
+			if rr < res {
+				res = rr
+			}
+			if rr != 1 || what == "" {
+				what = w
+			}
+		}
+		return res, what
+	case *ssa.Parameter:
+		if a, pe := e.actual(x); a != nil {
+			return freshBigInt(pe, a, depth+1)
+		}
+	case *ssa.UnOp:
+		if x.Op == token.MUL {
+			if f := forwarded(x); f != nil {
+				return freshBigInt(e, f, depth+1)
+			}
+			if g, ok := x.X.(*ssa.Global); ok {
+				return 0, "the package-level object " + g.Name()
+			}
+			if _, ok := x.X.(*ssa.FieldAddr); ok {
+				return 0, "an object kept in " + e.Term(x.X)
+			}
+		}
+	}
+	return -1, e.Term(v)
 }
 
 // shiftAccumulateRule: a loop that folds the bytes of a slice into a fixed-width unsigned accumulator (acc = acc<<k | x, acc*2^k + x) loses the
@@ -1091,4 +1288,13 @@ func c14r3(c *Ctx) {
 	indexRule(c, "C14-R3", "index / slice sites of the hand-written amount caster are in range", func(p *Prog, fn *ssa.Function) bool {
 		return p.InPkgs(fn, "data") && !p.Generated(fn)
 	}, 4)
+}
+
+func isByteSliceT(t types.Type) bool {
+	sl, ok := t.Underlying().(*types.Slice)
+	if !ok {
+		return false
+	}
+	b, ok := sl.Elem().Underlying().(*types.Basic)
+	return ok && b.Kind() == types.Uint8
 }
